@@ -761,6 +761,23 @@ class Normaliser:
             for q, f, cls in list(func_quals(tree)):
                 known = set(base.get(q, ())) if q in base else None
                 self._forward(path, q, f, known)
+        # a, b = (x, y) in an edited function -> a = x; b = y (plain local targets that the elements do not read)
+        for path in sorted(self.modules):
+            for q, f, cls in list(func_quals(self.modules[path].tree)):
+                if (path, q) in self.edited:
+                    for blk in self._blocks(f):
+                        i = 0
+                        while i < len(blk):
+                            sp_ = _split_tuple_assign(blk[i], names_may_be_impure=True) if isinstance(blk[i], ast.Assign) else None
+                            if sp_:
+                                blk[i:i + 1] = sp_
+                                self.log.append(f'N9 {path}::{q}: tuple assignment split into single assignments')
+                                i += len(sp_)
+                            else:
+                                i += 1
+                    known_ = set(self.base.get(path, {}).get('funcs', {}).get(q, ()))
+                    if known_:
+                        self._forward(path, q, f, known_)
         # v[...] op= e  on an array view v (itself a slice expression) is  v op= e
         for path in sorted(self.modules):
             for q, f, cls in list(func_quals(self.modules[path].tree)):
@@ -1738,6 +1755,18 @@ class Normaliser:
                     return ast.copy_location(ast.Constant(value=node.left.value + node.right.value), node)
                 return node
 
+            def visit_JoinedStr(self, node):
+                # f'_{"name"}' with only string literals inside -> '_name'
+                parts = []
+                for v in node.values:
+                    if isinstance(v, ast.Constant) and isinstance(v.value, str):
+                        parts.append(v.value)
+                    elif isinstance(v, ast.FormattedValue) and v.conversion == -1 and v.format_spec is None and isinstance(v.value, ast.Constant) and isinstance(v.value.value, str):
+                        parts.append(v.value.value)
+                    else:
+                        return node
+                return ast.copy_location(ast.Constant(value=''.join(parts)), node)
+
             def visit_Call(self, node):
                 self.generic_visit(node)
                 if isinstance(node.func, ast.Name) and node.func.id == 'getattr' and len(node.args) == 2 and not node.keywords \
@@ -1920,6 +1949,7 @@ class Normaliser:
                         or self._coalesce_copy_in(path, qual, func, known | params) or self._alias_to_field(path, qual, func, known | params)
                         or self._fold_reduce_once(path, qual, func)):
                     break
+            self._fold_attr_strings(func)
             if len(self.log) == n0:
                 break
         if len(self.log) > before:
